@@ -194,11 +194,14 @@ class Executor:
             return v.as_long()
         # first from the path condition alone (quantifier-free in most cases; a value fixed by a subset of the assumptions is fixed by all of them),
         # then with the collected facts (callee postconditions, container axioms)
-        for with_facts in (False, True):
+        for stage in (0, 1, 2):
             s = z3.Solver()
             s.set("rlimit", 5_000_000)
-            s.add(*self.pc)
-            if with_facts:
+            if stage == 0:
+                s.add(*[p_ for p_ in self.pc if not _has_quantifier(p_)])      # the quantifier-free part of the path condition (arithmetic on the inputs) usually suffices
+            else:
+                s.add(*self.pc)
+            if stage == 2:
                 s.add(*self.facts)
             if s.check() != z3.sat:
                 continue
